@@ -75,7 +75,8 @@ Protocols(k, f) ==
          IN {ok("b1") \o ok("b2"), fail("b1") \o ok("b1") \o ok("b2"), ok("b1") \o fail("b2") \o ok("b2")}
     [] Routine = "res" -> {Atomic(k, "db", "key_state.tmp", "key_state")}
     [] Routine = "disk" ->
-         {(IF k = 1 THEN <<EMkdir("ab")>> ELSE <<>>) \o Atomic(k, "e", "ab/e." \o NumStr(k) \o ".tmp", "ab/e")}
+         \* put -> get_file_path (create_dir_all of the two hash levels) -> write_file (unique temp name)
+         {(IF k = 1 THEN <<EMkdir("ab"), EMkdir("ab/cd")>> ELSE <<>>) \o Atomic(k, "e", "ab/cd/e." \o NumStr(k) \o ".tmp", "ab/cd/e")}
     [] Routine = "lru" ->
          \* bump_generation + checkpoint_to_disk: tokio::fs::write(new generation); remove_file(previous)
          {<<EOpen(Lru(k), TRUE, TRUE)>> \o WriteAll(k, "lru", Lru(k)) \o (IF k > 1 THEN <<EUnlink(Lru(k - 1))>> ELSE <<>>)}
@@ -118,7 +119,7 @@ Recover(d) ==
     [] Routine = "res" ->
          [o \in {"db"} |-> IF "key_state" \in Names(d) THEN StateOf(File(d, "key_state"), "db") ELSE 0]
     [] Routine = "disk" ->
-         [o \in {"e"} |-> IF "ab/e" \in Names(d) THEN StateOf(File(d, "ab/e"), "e") ELSE 0]
+         [o \in {"e"} |-> IF "ab/cd/e" \in Names(d) THEN StateOf(File(d, "ab/cd/e"), "e") ELSE 0]
     [] Routine \in {"lru", "lru_inplace", "lru_fixed"} ->
          \* find_latest_lru_file + load_from_disk: highest generation, MD5 must match
          [o \in {"lru"} |-> IF LruGens(d) = {} THEN 0 ELSE StateOf(File(d, Lru(MaxGen(d))), "lru")]
